@@ -515,6 +515,25 @@ def indirect : Nat → Val → Val × Bool
   | n + 1, .iface x => indirect n x
   | _, v => (v, false)
 
+/-- `indirect` together with addressability of the result: `Elem()` of a pointer is addressable,
+    `Elem()` of an interface is not -/
+def indirectA : Nat → Bool → Val → Val × Bool × Bool
+  | 0, a, v => (v, false, a)
+  | _ + 1, a, .ptr t none => (.ptr t none, true, a)
+  | n + 1, _, .ptr _ (some x) => indirectA n true x
+  | _ + 1, a, .iface .invalid => (.iface .invalid, true, a)
+  | n + 1, _, .iface x => indirectA n false x
+  | _, a, v => (v, false, a)
+
+/-- the method sets of the harness types with methods (`T3`): name ↦ needs a pointer receiver -/
+def methodsOf (tname : String) : List (String × Bool) :=
+  if tname == "T3" then [("Tag", false), ("PTag", true), ("Cat", false), ("Mix", false)] else []
+
+/-- `ptr.MethodByName(name)` where `ptr = v.Addr()` if `v` is addressable -/
+def methodByName (tname : String) (addressable : Bool) (name : Bytes) : Option String :=
+  (methodsOf tname).findSome? fun (m, needsPtr) =>
+    if asciiBytes m == name && (addressable || !needsPtr) then some m else none
+
 /-- eval.go `indexArg` -/
 def indexArg (index : Val) (cap : Nat) : P Nat :=
   let chk (x : Int) : P Nat :=
@@ -533,7 +552,7 @@ def elemOut (iface : Bool) (v : Val) : Val := if iface then Val.indirectEface (.
     (or is given as) a string.  Methods are outside the modelled fragment. -/
 def resolveIndex (v : Val) (index : Val) (indexAsStr : Option Bytes) : P Val :=
   if !v.isValid then errPlain "there is no field or method in invalid value" else
-  let (v, isNil) := indirect 8 v
+  let (v, isNil, addressable) := indirectA 8 false v
   match v, isNil with
   | .iface _, true => errPlain "nil pointer evaluating"
   | _, _ =>
@@ -542,6 +561,13 @@ def resolveIndex (v : Val) (index : Val) (indexAsStr : Option Bytes) : P Val :=
     | none => match index with
       | .str s => some s
       | _ => none
+  -- a method of that name wins over fields, keys and indices
+  let meth : Option String := match v, key with
+    | .struct tn _, some k => methodByName tn addressable k
+    | _, _ => none
+  match meth with
+  | some m => pure (.method m v)
+  | none =>
   let indexVal : Val := match indexAsStr with
     | some s => .str s
     | none => index
@@ -738,6 +764,7 @@ def goFuncSig (id : String) : Option Sig :=
   else if id == "cat" then some ⟨[.string], some .string⟩
   else if id == "ident" then some ⟨[.any], none⟩
   else if id == "shout" then some ⟨[.string], none⟩
+  else if id == "joinv" then some ⟨[.string], some .any⟩
   else if id == "sum" then some ⟨[], some .int⟩
   else if id == "stage" then some ⟨[.int, .string], none⟩
   else if id == "replace" then some ⟨[.string, .string, .string, .int], none⟩
@@ -796,6 +823,11 @@ def isAsciiSpace (c : UInt8) : Bool := c == 32 || c == 9 || c == 10 || c == 13 |
 
 def trimSpaceB (s : Bytes) : Bytes := ((s.dropWhile isAsciiSpace).reverse.dropWhile isAsciiSpace).reverse
 
+def joinBytes (sep : Bytes) : List Bytes → Bytes
+  | [] => []
+  | [x] => x
+  | x :: xs => x ++ sep ++ joinBytes sep xs
+
 /-- a reflected Go function applied to converted arguments -/
 def applyGoFunc (id : String) (args : List Val) : P (Val × List LogE) :=
   match id, args with
@@ -819,6 +851,10 @@ def applyGoFunc (id : String) (args : List Val) : P (Val × List LogE) :=
       | _ => crash "unreachable cat arg") a) >>= fun s => pure (.str s, [])
   | "ident", [v] => pure (.iface (Val.indirectInterface v), [])
   | "shout", [.str s] => pure (.str (s ++ [33]), [])
+  | "joinv", .str sep :: xs =>
+    (match xs.mapM (fun v => fmtAny (Val.indirectInterface v)) with
+     | some ps => pure (.str (joinBytes sep ps), [])
+     | none => unsupported "fmt.Sprint of a joinv argument")
   | "stage", [.int id, .str s] => pure (.str (s ++ intToDec id), [.probe id])
   | "sum", xs =>
     (xs.foldlM (fun acc v => match v with
@@ -841,6 +877,44 @@ where
       if c == 34 then asciiBytes "&#34;" else if c == 39 then asciiBytes "&#39;"
       else if c == 38 then asciiBytes "&amp;" else if c == 60 then asciiBytes "&lt;"
       else if c == 62 then asciiBytes "&gt;" else [c]
+
+/-- `fmt.Sprint(operands...)`: default formats, a space between two operands when neither is a string -/
+def sprintGo : Bool → Bool → List Val → Option Bytes
+  | _, _, [] => some []
+  | first, prevString, v :: rest =>
+    let w := Val.indirectInterface v
+    let isString := match w with | .str _ => true | _ => false
+    match fmtAny w, sprintGo false isString rest with
+    | some b, some tail => some ((if !first && !isString && !prevString then [32] else []) ++ b ++ tail)
+    | _, _ => none
+
+def methodSig (name : String) : Option Sig :=
+  if name == "Tag" then some ⟨[.string, .int], none⟩
+  else if name == "PTag" then some ⟨[.string], none⟩
+  else if name == "Cat" then some ⟨[], some .string⟩
+  else if name == "Mix" then some ⟨[.int], some .any⟩
+  else none
+
+/-- the methods of the harness type `T3 {Pre string; N int}` applied to converted arguments -/
+def applyMethod (name : String) (recv : Val) (args : List Val) : P Val :=
+  match recv with
+  | .struct _ fs =>
+    match alookup (asciiBytes "Pre") fs, alookup (asciiBytes "N") fs with
+    | some (.str pre), some (.int n) =>
+      match name, args with
+      | "Tag", [.str p, .int k] => pure (.str (pre ++ [58] ++ p ++ [58] ++ intToDec (Val.wrapI (k + n))))
+      | "PTag", [.str p] => pure (.str ([42] ++ pre ++ [58] ++ p))
+      | "Cat", xs =>
+        (xs.mapM (fun v => match v with
+          | .str x => pure x
+          | _ => crash "unreachable Cat arg")) >>= fun ps => pure (.str (pre ++ [40] ++ joinBytes [44] ps ++ [41]))
+      | "Mix", a :: xs =>
+        (match sprintGo true false (.str pre :: a :: xs) with
+         | some b => pure (.str b)
+         | none => unsupported "fmt.Sprint of a method argument")
+      | _, _ => unsupported ("method " ++ name)
+    | _, _ => unsupported "method receiver"
+  | _ => unsupported "method receiver"
 
 /-! ### the evaluator (open recursion) -/
 
@@ -1227,6 +1301,15 @@ def callValue (r : Rec) (env : Env) (fn : Val) (a : Args) : M (Except String Val
         let (v, logs) ← liftP (applyGoFunc id args)
         modifyRT fun rt => { rt with log := logs.reverse ++ rt.log }
         pure (.ok (Val.indirectEface v))   -- `return indirectEface(returns[0]), nil`
+  | .method name recv =>
+    match methodSig name with
+    | none => unsupported ("signature of method " ++ name)
+    | some sig => do
+      match ← evaluateArgs r env sig a with
+      | .error m => pure (.error ("call expression: " ++ m))
+      | .ok args => do
+        let v ← liftP (applyMethod name recv args)
+        pure (.ok (Val.indirectEface v))
   | .swriter _ => unsupported "SafeWriter called as a plain function"
   | _ => crash "unreachable: call of non-func"
 
@@ -1238,7 +1321,7 @@ def callAt (r : Rec) (env : Env) (loc : Loc) (fn : Val) (a : Args) : M Val := do
 
 def kindIsFunc (v : Val) : Bool :=
   match v with
-  | .func _ | .jfunc _ | .swriter _ => true
+  | .func _ | .jfunc _ | .swriter _ | .method _ _ => true
   | _ => false
 
 /-- positions an error that a helper *returned* (`node.error(err)`) -/
